@@ -1,14 +1,15 @@
 #!/bin/bash
-# usage: confirm_seed.sh C17 A     (reads /tmp/seed_C17/SEED_OUT/{A.diff,demo_A.py,A.json})
+# usage: [SEEDROOT=/tmp/seed2 BASE=<commit>] confirm_seed.sh C17 A     (reads $SEEDROOT_C17/SEED_OUT/{A.diff,demo_A.py,A.json}; defaults /tmp/seed, 9dc07ba)
 # Confirms in a fresh scratch worktree: patch applies, baseline still passes, demo fails with / passes without.
 # Writes /verif/seeded/C17-A/{patch.diff,demo.py,meta.json}.  Triage aid only - never part of a registered check.
 set -u
 P=$1; L=$2
-SRC=/tmp/seed_$P/SEED_OUT
+SRC=${SEEDROOT:-/tmp/seed}_$P/SEED_OUT
+BASE=${BASE:-9dc07ba}
 OUT=/verif/seeded/$P-$L
 WT=/tmp/confirm_${P}_$L
 [ -f $SRC/$L.diff ] || { echo "no $SRC/$L.diff"; exit 3; }
-rm -rf $WT; git -C /repo worktree prune; git -C /repo worktree add --detach $WT 9dc07ba >/dev/null 2>&1 || exit 3
+rm -rf $WT; git -C /repo worktree prune; git -C /repo worktree add --detach $WT $BASE >/dev/null 2>&1 || exit 3
 cd $WT
 DEMO=asimap/test/test_seed_${P}_$L.py
 cp $SRC/demo_$L.py $DEMO
@@ -26,11 +27,12 @@ cp $SRC/$L.diff $OUT/patch.diff; cp $SRC/demo_$L.py $OUT/demo.py
 /venv/bin/python - "$P" "$L" "$PRISTINE" "$WITH" "$BASE_OUT" <<'PY'
 import json,sys
 P,L,pr,wi,base=sys.argv[1:6]
-src=json.load(open(f'/tmp/seed_{P}/SEED_OUT/{L}.json'))
+import os
+src=json.load(open(os.environ.get('SEEDROOT','/tmp/seed')+f'_{P}/SEED_OUT/{L}.json'))
 meta={"property":P,"id":f"{P}-{L}","summary":src.get("summary"),"why_breaks":src.get("why_breaks"),
 "needs_to_manifest":src.get("needs_to_manifest"),"files":src.get("files"),
 "confirmed_by_me":{"demo_rc_pristine":int(pr),"demo_rc_with_defect":int(wi),"baseline_check_with_defect":base.strip(),
-"what_i_ran":"tools/confirm_seed.sh: fresh worktree of /repo HEAD; pytest demo on pristine (expect rc 0); git apply patch.diff; pytest demo (expect rc!=0); baseline_check.py (expect missing=0)"},
+"base_commit":os.environ.get("BASE","9dc07ba"),"what_i_ran":"tools/confirm_seed.sh: fresh worktree of the base commit; pytest demo on pristine (expect rc 0); git apply patch.diff; pytest demo (expect rc!=0); baseline_check.py (expect missing=0)"},
 "demo_how":"copy demo.py to asimap/test/test_seed_%s_%s.py in a worktree and run /venv/bin/python -m pytest on it"%(P,L)}
 meta["confirmed"]= (int(pr)==0 and int(wi)!=0 and "missing=0" in base)
 json.dump(meta,open(f'/verif/seeded/{P}-{L}/meta.json','w'),indent=1)
